@@ -56,14 +56,14 @@ def rand_info(rng: random.Random, n: int, dense: bool) -> bytes:
     return bytes(rng.randrange(256) for _ in range(n))
 
 
-def item_frame(rng: random.Random, maxinfo: int | None = None, sizes=None, tag: int | None = None, addr=None) -> dict:
+def item_frame(rng: random.Random, maxinfo: int | None = None, sizes=None, tag: int | None = None, addr=None, dense=None) -> dict:
     dl, sl = addr or (rng.choice([1, 1, 1, 2, 3, 4]), rng.choice([1, 1, 2, 4]))
     cap = 2047 - (2 + dl + sl + 1 + 2) - 2
     if maxinfo is not None:
         cap = min(cap, maxinfo)
     sizes = sizes or [0, 0, 1, 2, 3, 5, 8, 16, 40, 127, 128, 255, 256]
     n = min(cap, rng.choice(sizes))
-    info = rand_info(rng, n, rng.random() < 0.4)
+    info = rand_info(rng, n, rng.random() < 0.4 if dense is None else dense)
     if tag is not None and n >= 2:
         info = bytes([tag >> 8 & 0xFF, tag & 0xFF]) + info[2:]
     return {"k": "frame", "type": rng.choice([0xA, 0xA, 0xA, rng.randrange(16)]), "seg": rng.random() < 0.2,
@@ -377,13 +377,17 @@ def noise_prefix(rng: random.Random, cfg, kind: str) -> bytes:
     return b""
 
 
-def resync_plan(rng: random.Random, cfg, kind: str, nsuffix: int, big: bool = False) -> list[dict]:
+def resync_plan(rng: random.Random, cfg, kind: str, nsuffix: int, big: bool = False, densebig: bool = False) -> list[dict]:
     plan = [item_noise(noise_prefix(rng, cfg, kind))]
     if plan[0]["o"] == []:
         plan = [item_noise(b"\x00")]
     plan.append(item_flags(rng.choice([1, 2])))
     for j in range(nsuffix):
-        it = item_frame(rng, maxinfo=None if big else 80, sizes=[2, 3, 5, 8, 16, 40] + ([400, 900] if big else []), tag=j)
+        if densebig and j % 2 == 1:
+            # stuffing: a frame within the length limit whose wire form (escapes included) is far above it
+            it = item_frame(rng, sizes=[1100, 1209, 1500, 2030], tag=j, dense=True)
+        else:
+            it = item_frame(rng, maxinfo=None if big else 80, sizes=[2, 3, 5, 8, 16, 40] + ([400, 900] if big else []), tag=j)
         if len(it["info"]) < 2:
             it["info"] = [j >> 8 & 0xFF, j & 0xFF]
         if not cfg[0]:
@@ -574,7 +578,7 @@ def _mk_resync(args):
         cfg = CFGS[k % 4]
         kind = NOISE_KINDS[(k // 4 + seed * 2) % len(NOISE_KINDS)]      # jobs start at different kinds so that a small tier still covers all
         far = (not cfg[0]) and k % 3 == 0  # non-stuffing: make the suffix long enough that frames become required
-        plan = resync_plan(rng, cfg, kind, rng.randint(2, 6) if not far else rng.randint(8, 14), big=far)
+        plan = resync_plan(rng, cfg, kind, rng.randint(2, 6) if not far else rng.randint(8, 14), big=far, densebig=cfg[0] and k % 3 == 1)
         data = plan_wire(cfg, plan)
         cuts = chunkings(rng, len(data), ncuts)
         nl = len(plan[0]["o"])
